@@ -63,7 +63,8 @@ func alphabet(d *DAG) []Op {
 		Op{Kind: "tag", Node: 3, Ref: "b"}, Op{Kind: "tag", Node: 3, Ref: "c", Ann: true},
 		Op{Kind: "untag", Ref: "a"}, Op{Kind: "untag", Ref: "b"},
 		Op{Kind: "delete", Node: 0}, Op{Kind: "delete", Node: 2}, Op{Kind: "delete", Node: 3}, Op{Kind: "delete", Node: 1},
-		Op{Kind: "gc"})
+		Op{Kind: "gc"},
+		Op{Kind: "pushbad"}) // correct digest and size, a manifest media type, bytes that are not JSON: refused, and the layout stays usable
 	return ops
 }
 
